@@ -4,7 +4,14 @@ use rasn_compiler::prelude::ir::*;
 use serde_json::{json, Value};
 
 fn render_type(case: &Value) -> String {
+    render_type_k(0, case)
+}
+
+/// `k` odd: the enumerals of an ENUMERATED carry explicit numbers that go *down* (an addition numbered below the root is legal,
+/// X.680 20.4), so that the order of the numbers is not the order of the items
+fn render_type_k(k: usize, case: &Value) -> String {
     let kind = case["kind"].as_str().unwrap();
+    let numbered = kind == "ENUMERATED" && k % 2 == 1;
     let comp_ty = if kind == "ENUMERATED" { "" } else { " BOOLEAN" };
     let mut parts: Vec<String> = vec![];
     let mut n = 0usize;
@@ -13,7 +20,7 @@ fn render_type(case: &Value) -> String {
         match x["t"].as_str().unwrap() {
             "r" | "a" => {
                 n += 1;
-                parts.push(format!("c{n}{comp_ty}"));
+                parts.push(if numbered { format!("c{n}({})", 100 - n * 7) } else { format!("c{n}{comp_ty}") });
             }
             "m" => parts.push("...".into()),
             "g" => {
@@ -35,7 +42,8 @@ fn render_type(case: &Value) -> String {
 }
 
 fn render(k: usize, case: &Value) -> String {
-    let ty = render_type(case);
+    let _ = render_type;
+    let ty = render_type_k(k, case);
     if case["nested"].as_bool().unwrap() {
         // among the outer types that make the layout "an anonymous component" the harness rotates: every third one also has a
         // component whose type is an object-class field type -- the linker rebuilds such a definition, nested types included
